@@ -32,6 +32,8 @@ type loadExpect struct {
 	Names    []string `json:"names"`
 	Mentions []string `json:"mentions"` // the error must identify one of these (file name or layout/component name)
 	Any      bool     `json:"any"`
+	File     string   `json:"file"` // C13: the error's path must be this file (tree name) ...
+	Line     int      `json:"line"` // ... and its line this one
 }
 
 type treeOp struct {
@@ -172,6 +174,15 @@ func treeFamily(raw json.RawMessage) Result {
 				res.Status, res.Kind = "viol", "error-does-not-identify-file"
 				res.Msg = fmt.Sprintf("load error does not identify any of %q: %s", c.Load.Mentions, firstLines(lerr.Error(), 3))
 				return res
+			}
+			if c.Load.File != "" {
+				line, path, ok := errLinePath(lerr)
+				want := filepath.Join(root, strings.Trim(c.Cfg.Dir, "/"), c.Load.File+c.Cfg.Ext)
+				if !ok || path != want || line != c.Load.Line {
+					res.Status, res.Kind = "viol", "wrong-line-or-path"
+					res.Msg = fmt.Sprintf("load error at %s:%d, the faulty construct is at %s:%d (%s)", path, line, want, c.Load.Line, firstLines(lerr.Error(), 2))
+					return res
+				}
 			}
 			return res
 		}
